@@ -162,6 +162,18 @@ func oracle(c Case, o Obs) (string, string) {
 	if want := p[:min(len(p), room)]; !bytes.Equal(o.ReqPayload, want) {
 		return "request-payload", fmt.Sprintf("request carried %d payload bytes, want the first %d of %d", len(o.ReqPayload), len(want), len(p))
 	}
+	// every Write / ReadFrom of the session must succeed (a scripted source's own error excepted): in particular the dial
+	// context, cancelled or expired after DialStream returned, must not reach into the session
+	for i, e := range o.CWriteErrs {
+		if e != "ok" && e != "source-error" {
+			return "write-failed:c2s:" + e + ":dialctx=" + c.DialCtx, fmt.Sprintf("client writer call %d returned %s (dial context: %q, ended after DialStream returned; %d function(s) were still registered on it); the bytes never arrive", i, e, c.DialCtx, o.DialCtxArmed)
+		}
+	}
+	for i, e := range o.SWriteErrs {
+		if e != "ok" && e != "source-error" {
+			return "write-failed:s2c:" + e, fmt.Sprintf("server writer call %d returned %s", i, e)
+		}
+	}
 	// the request the server holds must stay what it was for the whole session
 	for _, seen := range o.ReqLater {
 		if seen.Panic != "" {
@@ -436,6 +448,13 @@ func genCase(r *common.Rng) Case {
 		}
 		return Tout{Mode: "boundary", Seed: r.U64(), Count: r.Range(1, 6)}
 	}
+	// the dial context ends after the dial; the session goes on
+	switch r.Intn(6) {
+	case 0, 1:
+		c.DialCtx = "cancel"
+	case 2:
+		c.DialCtx = "deadline"
+	}
 	plain := func(ops []ROp) []ROp { // scripted sinks are not combined with read deadlines
 		for i := range ops {
 			if strings.HasPrefix(ops[i].Kind, "writeto-") || ops[i].Kind == "tunnel-fail" {
@@ -466,7 +485,17 @@ func probes() []Case {
 		return []WOp{{Kind: "readfrom", Data: Data{Seed: seed, Len: n}, Items: []SrcIt{{Len: n, Err: "eof"}}}}
 	}
 	drain := []ROp{{Kind: "read", N: 70000}, {Kind: "read", N: 70000}, {Kind: "writeto"}}
-	return []Case{
+	wr := func(n int, seed uint64) WOp { return WOp{Kind: "write", Data: Data{Seed: seed, Len: n}} }
+	room := maxPayload - 7 - 2
+	var ctxProbes []Case
+	for i, pl := range []int{room - 1, room, room + 1, 65536, 2*65535 + 1} {
+		for _, mode := range []string{"cancel", "deadline"} {
+			ctxProbes = append(ctxProbes, Case{Cfg: cfg, Target: t, Payload: Data{Seed: uint64(30 + i), Len: pl}, DialCtx: mode,
+				CWrites: []WOp{wr(100, 40), {Kind: "readfrom", Data: Data{Seed: 41, Len: 70000}, Items: []SrcIt{{Len: 70000, Err: "eof"}}}, wr(1, 42)},
+				C2S:     Seg{Mode: "atomic"}, SReads: drain, SWrites: []WOp{wr(10, 43)}, S2C: Seg{Mode: "atomic"}, CReads: drain})
+		}
+	}
+	return append(ctxProbes, []Case{
 		// io.Reader contract at the copy-path boundaries: the whole (short) stream comes in one Read together with io.EOF,
 		// nothing written before: server's first write, client's ReadFrom; and data together with another error
 		{Cfg: cfg, Target: t, CWrites: de(100, 11), C2S: Seg{Mode: "atomic"}, SReads: drain, SWrites: de(100, 12), S2C: Seg{Mode: "atomic"}, CReads: drain},
@@ -474,7 +503,7 @@ func probes() []Case {
 		{Cfg: cfg, Target: t, C2S: Seg{Mode: "atomic"},
 			CWrites: []WOp{{Kind: "readfrom", Data: Data{Seed: 15, Len: 300}, Items: []SrcIt{{Len: 0}, {Len: 100, Err: "err"}, {Len: 200}}}, {Kind: "write", Data: Data{Seed: 16, Len: 10}}}, SReads: drain,
 			SWrites: []WOp{{Kind: "readfrom", Data: Data{Seed: 17, Len: 300}, Items: []SrcIt{{Len: 0}, {Len: 100, Err: "err"}, {Len: 200, Err: "eof"}}}, {Kind: "readfrom", Data: Data{Seed: 18, Len: 50}, Items: []SrcIt{{Len: 50, Err: "eof"}}}},
-			S2C: Seg{Mode: "atomic"}, CReads: drain},
+			S2C:     Seg{Mode: "atomic"}, CReads: drain},
 		// transient-timeout-at-chunk-boundary, both directions, and the negative (deadline inside a chunk)
 		{Cfg: cfg, Target: t, CWrites: three, C2S: Seg{Mode: "atomic"}, SReads: rd, SWrites: three, S2C: Seg{Mode: "atomic"}, CReads: rd, SinkStarted: true,
 			C2STout: Tout{Mode: "boundary", Seed: 1, Count: 5}, S2CTout: Tout{Mode: "boundary", Seed: 2, Count: 5}},
@@ -485,7 +514,7 @@ func probes() []Case {
 		{Cfg: cfg, Target: t, C2S: Seg{Mode: "atomic"}, SWrites: two, S2C: Seg{Mode: "atomic"}, CReads: []ROp{{Kind: "read", N: 100}, {Kind: "tunnel"}}, SinkStarted: false},
 		{Cfg: cfg, Target: t, C2S: Seg{Mode: "atomic"}, SWrites: two, S2C: Seg{Mode: "atomic"}, CReads: []ROp{{Kind: "read", N: 100}, {Kind: "writeto"}}},
 		{Cfg: cfg, Target: t, C2S: Seg{Mode: "atomic"}, SWrites: two, S2C: Seg{Mode: "atomic"}, CReads: []ROp{{Kind: "read", N: 100}, {Kind: "tunnel", ViaReadFrom: true}}, SinkStarted: true},
-	}
+	}...)
 }
 
 // ---------- evaluation ----------
@@ -583,6 +612,13 @@ func evalCases(cases []Case, o *common.Options, rep *common.Report, probe bool) 
 		rep.Count("c2s-seg=" + c.C2S.Mode)
 		rep.Count("s2c-seg=" + c.S2C.Mode)
 		rep.Count("target=" + c.Target.Kind)
+		if c.DialCtx != "" {
+			ex := "payload<=room"
+			if c.Payload.Len > maxPayload-len(normAddrBytes(c.Target))-2 {
+				ex = "payload>room(excess written through ConnWriteContext)"
+			}
+			rep.Count("dial-ctx=" + c.DialCtx + "-after-dial/" + ex)
+		}
 		if c.C2STout.Mode != "" || c.S2CTout.Mode != "" {
 			rep.Count("read-deadlines=c2s:" + c.C2STout.Mode + "/s2c:" + c.S2CTout.Mode)
 		}
